@@ -12,6 +12,11 @@ PROPS = {"C19": "model_checking"}
 ASSUMPTIONS = {"C19": [
     "fake brokers (harness/fakekafka) stand for real ones: ListOffsets -1/-2/timestamp semantics, NotLeaderForPartition from non-leaders, "
     "offset -1 for a timestamp after the last record, committed offset -1 when none",
+    "isolation level as brokers implement it (Partition.fetchOffsetForTimestamp): under read_committed the last stable offset takes the place "
+    "of the high watermark for timestamp -1 and bounds the look-ups by timestamp; ListOffsets v0/v1 have no isolation level",
+    "a coordinator that refuses a group (GroupLoadInProgress, NotCoordinatorForGroup, CoordinatorNotAvailable, GroupAuthorizationFailed) answers "
+    "as brokers do per version: OffsetFetch v0/v1 and OffsetCommit repeat the code in every partition entry, OffsetFetch v2+ answer the "
+    "top-level error code with an empty topic list",
     "offsets and timestamps are small integers (TLC integers are 32-bit); 64-bit extremes are not exercised here",
     "cluster states are static while they are queried (except the OffsetCommit under test)",
 ]}
@@ -20,6 +25,9 @@ TOPICS = ("ta", "tb")
 MAXVERS = {"listoffsets": 5, "offsetfetch": 5, "offsetcommit": 7, "metadata": 8}
 MINVERS = {"listoffsets": 1, "offsetfetch": 0, "offsetcommit": 0, "metadata": 1}
 TS_PROBES = [-2, -1, 0, 5, 10, 15, 20, 25]
+GROUP_ERRS = [14, 16, 15, 30]   # GroupLoadInProgress, NotCoordinatorForGroup, GroupCoordinatorNotAvailable, GroupAuthorizationFailed
+# Client.ConsumerOffsets after a commit the coordinator refused: asked only when this switch is set (see q_commit)
+CO_ON_REFUSED_GROUP = os.environ.get("VERIF_C19_CO_REFUSED", "1") == "1"
 
 
 def broker(i):
@@ -37,28 +45,30 @@ def ts_pattern(end, kind):
     return [10] * ((end + 1) // 2) + [20] * (end // 2)
 
 
-def make_part(pid, leader, nb, start, end, tskind=2, isr_short=False, leader_last=False):
+def make_part(pid, leader, nb, start, end, tskind=2, isr_short=False, leader_last=False, lso=None):
     replicas = [leader] if nb == 1 else [leader, leader % nb + 1]
     if leader_last:
         replicas.reverse()     # the leader need not be the first replica
     return {"id": pid, "leader": leader, "replicas": replicas, "isr": [leader] if isr_short else list(replicas),
-            "start": start, "end": end, "ts": ts_pattern(end, tskind), "lerr": 0, "merr": 0, "lerrt": 0}
+            "start": start, "end": end, "lso": end if lso is None else lso, "ts": ts_pattern(end, tskind), "lerr": 0, "merr": 0, "lerrt": 0}
 
 
-def make_cs(nb, shapes, ranges, tskinds=None, committed=None, isr_short=(), controller=1, coord=None, leader_last=()):
-    """shapes: partitions per topic; ranges[(t, p)] = (start, end)"""
+def make_cs(nb, shapes, ranges, tskinds=None, committed=None, isr_short=(), controller=1, coord=None, leader_last=(), lsos=None, gerr=None):
+    """shapes: partitions per topic; ranges[(t, p)] = (start, end); lsos[(t, p)] = last stable offset (default: end);
+    gerr[g] = error code the coordinator answers for the whole group"""
     topics = []
     for ti, (name, n) in enumerate(zip(TOPICS, shapes)):
         parts = []
         for p in range(n):
             leader = (p + ti) % nb + 1
             st, en = ranges.get((name, p), (0, 3))
-            parts.append(make_part(p, leader, nb, st, en, (tskinds or {}).get((name, p), 2), (name, p) in isr_short, (name, p) in leader_last))
+            parts.append(make_part(p, leader, nb, st, en, (tskinds or {}).get((name, p), 2), (name, p) in isr_short, (name, p) in leader_last,
+                                   (lsos or {}).get((name, p))))
         topics.append({"name": name, "parts": parts})
     groups = []
     for gi, g in enumerate(("g1", "g2")):
         cm = [{"t": t, "p": p, "off": off} for (gg, t, p), off in sorted((committed or {}).items()) if gg == g]
-        groups.append({"id": g, "coord": (coord or {}).get(g, 1), "committed": cm})
+        groups.append({"id": g, "coord": (coord or {}).get(g, 1), "gerr": (gerr or {}).get(g, 0), "committed": cm})
     return {"brokers": [broker(i) for i in range(1, nb + 1)], "controller": controller, "down": [], "downMode": "refuse",
             "topics": topics, "groups": groups}
 
@@ -85,6 +95,12 @@ def with_fault(cs, fault):
         part_of(cs, fault[1], fault[2])["merr"] = fault[3]
     elif kind == "lerrt":
         part_of(cs, fault[1], fault[2])["lerrt"] = fault[3]
+    elif kind == "lso":
+        part_of(cs, fault[1], fault[2])["lso"] = fault[3]
+    elif kind == "gerr":
+        for g in cs["groups"]:
+            if g["id"] == fault[1]:
+                g["gerr"] = fault[2]
     elif kind == "down":
         cs["down"] = [fault[1]]
         cs["downMode"] = fault[2] if len(fault) > 2 else "refuse"
@@ -97,12 +113,14 @@ def with_fault(cs, fault):
 def random_cs(rng, nb=None, shapes=None):
     nb = nb or rng.choice([2, 3])
     shapes = shapes or (rng.randint(1, 3), rng.randint(1, 3))
-    ranges, tsk, com, short, llast = {}, {}, {}, set(), set()
+    ranges, tsk, com, short, llast, lsos, gerr = {}, {}, {}, set(), set(), {}, {}
     for ti, name in enumerate(TOPICS):
         for p in range(shapes[ti]):
             st = rng.randint(0, 4)
             ranges[(name, p)] = (st, rng.randint(st, 4))
             tsk[(name, p)] = rng.randrange(4)
+            if rng.random() < 0.5:      # an open transaction at the tail
+                lsos[(name, p)] = rng.randint(st, ranges[(name, p)][1])
             if rng.random() < 0.3:
                 short.add((name, p))
             if rng.random() < 0.4:
@@ -110,8 +128,11 @@ def random_cs(rng, nb=None, shapes=None):
             for g in ("g1", "g2"):
                 if rng.random() < 0.6:
                     com[(g, name, p)] = rng.randint(0, 4)
+    for g in ("g1", "g2"):
+        if rng.random() < 0.25:
+            gerr[g] = rng.choice(GROUP_ERRS)
     return make_cs(nb, shapes, ranges, tsk, com, short, controller=rng.randint(1, nb),
-                   coord={"g1": rng.randint(1, nb), "g2": rng.randint(1, nb)}, leader_last=llast)
+                   coord={"g1": rng.randint(1, nb), "g2": rng.randint(1, nb)}, leader_last=llast, lsos=lsos, gerr=gerr)
 
 
 def random_fault(rng, cs):
@@ -149,6 +170,10 @@ class Cases:
                 n += 1
                 qid = "%s#%d" % (q["id"], n)
             self.ids.add(qid)
+            if q["api"] == "listoffsets":
+                # part of the question: the highest ListOffsets version the brokers of this job speak (the isolation
+                # level exists from v2 on)
+                q = dict(q, q=dict(q["q"], bv=versions["listoffsets"]))
             uniq.append(dict(q, id=qid))
         queries = uniq
         for k in range(0, len(queries), chunk):
@@ -246,9 +271,10 @@ def q_metadata(csi, cs):
     return out
 
 
-def q_listoffsets_one(csi, reqs, tag):
-    return {"id": "listoffsets/cs%d/%s" % (csi, tag), "api": "listoffsets",
-            "q": {"reqs": [{"t": t, "p": p, "ts": ts} for (t, p, ts) in reqs]}}
+def q_listoffsets_one(csi, reqs, tag, iso=0):
+    """iso: ListOffsetsRequest.IsolationLevel (0 ReadUncommitted, 1 ReadCommitted)"""
+    return {"id": "listoffsets/cs%d/%s%s" % (csi, tag, "/rc" if iso else ""), "api": "listoffsets",
+            "q": {"reqs": [{"t": t, "p": p, "ts": ts} for (t, p, ts) in reqs], "iso": iso}}
 
 
 def req_tag(reqs):
@@ -258,25 +284,26 @@ def req_tag(reqs):
     return ",".join("%s:%s" % (k, "".join(v) if all(len(x) == 1 for x in v) else ".".join(v)) for k, v in by.items()) or "none"
 
 
-def q_listoffsets_uniform(csi, cs, tsets):
-    """every subset of the partitions x the given sets of timestamps (the same set for every chosen partition)"""
+def q_listoffsets_uniform(csi, cs, tsets, isos=(0,)):
+    """every subset of the partitions x the given sets of timestamps (the same set for every chosen partition) x isolation levels"""
     tps = all_tps(cs)
     out = []
     for r in range(0, len(tps) + 1):
         for sub in itertools.combinations(tps, r):
             for tset in (tsets if sub else tsets[:1]):
                 reqs = [(t, p, ts) for (t, p) in sub for ts in tset]
-                out.append(q_listoffsets_one(csi, reqs, "u/" + req_tag(reqs)))
+                for iso in isos:
+                    out.append(q_listoffsets_one(csi, reqs, "u/" + req_tag(reqs), iso))
     return out
 
 
-def q_listoffsets_pairs_exhaustive(csi, cs, tss):
+def q_listoffsets_pairs_exhaustive(csi, cs, tss, iso=0):
     """every subset of {partitions} x tss in one request"""
     pairs = [(t, p, ts) for (t, p) in all_tps(cs) for ts in tss]
     out = []
     for mask in range(1 << len(pairs)):
         reqs = [pairs[i] for i in range(len(pairs)) if mask >> i & 1]
-        out.append(q_listoffsets_one(csi, reqs, "x%d/%s" % (mask, req_tag(reqs))))
+        out.append(q_listoffsets_one(csi, reqs, "x%d/%s" % (mask, req_tag(reqs)), iso))
     return out
 
 
@@ -288,7 +315,7 @@ def q_listoffsets_random(rng, csi, cs, n, extra_unknown=True):
     for k in range(n):
         m = rng.randint(1, min(10, len(pairs)))
         reqs = rng.sample(pairs, m)
-        out.append(q_listoffsets_one(csi, reqs, "r%d/%s" % (k, req_tag(reqs))))
+        out.append(q_listoffsets_one(csi, reqs, "r%d/%s" % (k, req_tag(reqs)), 1 if rng.random() < 0.4 else 0))
     return out
 
 
@@ -312,7 +339,10 @@ def q_offsetfetch(csi, cs, rng=None, limit=None):
     return out
 
 
-def q_commit(rng, csi, cs, n):
+def q_commit(rng, csi, cs, n, refused=0.0):
+    """OffsetCommit on a case-private group, then OffsetFetch and ConsumerOffsets.  refused: share of the cases whose
+    coordinator refuses the group (q.gerr).  ConsumerOffsets is not asked about a refused group unless
+    VERIF_C19_CO_REFUSED=1: it drops the refusal (nil error, empty map or -1 offsets), a finding reported apart."""
     tps = all_tps(cs)
     up = [b["id"] for b in cs["brokers"] if b["id"] not in cs["down"]]
     out = []
@@ -320,9 +350,11 @@ def q_commit(rng, csi, cs, n):
         init = [{"t": t, "p": p, "off": rng.randint(0, 4)} for (t, p) in tps if rng.random() < 0.5]
         sub = rng.sample(tps, rng.randint(1, len(tps)))
         commits = [{"t": t, "p": p, "off": rng.randint(0, 4)} for (t, p) in sub]
-        out.append({"id": "commit/cs%d/k%d/%s" % (csi, k, ",".join("%s%d=%d" % (c["t"][1], c["p"], c["off"]) for c in commits)), "api": "commit",
+        gerr = rng.choice(GROUP_ERRS) if rng.random() < refused else 0
+        out.append({"id": "commit/cs%d/k%d/%s%s" % (csi, k, ",".join("%s%d=%d" % (c["t"][1], c["p"], c["off"]) for c in commits),
+                                                  "/refused%d" % gerr if gerr else ""), "api": "commit",
                     "q": {"group": "gc-%d-%d" % (csi, k), "coord": rng.choice(up), "init": init, "commits": commits,
-                          "fetch": tplist(tps), "ctopic": rng.choice(TOPICS)}})
+                          "fetch": tplist(tps), "ctopic": rng.choice(TOPICS), "gerr": gerr, "co": gerr == 0 or CO_ON_REFUSED_GROUP}})
     return out
 
 
@@ -363,6 +395,12 @@ def enumerate_cases(tier, seed):
         qs += seek_grid(csi, cs, "ta", 1, 2, positions=[("cur1", 1)])           # healthy neighbour
         qs += seek_grid(csi, cs, "tb", 0, 1, positions=[("cur2", 2)], offs=(0, 1))  # connection to a non-leader
         C.add_job(csi, vsets[0], qs)
+    # Seek / Offset on a partition with an open transaction at the tail: the Conn has no isolation level, its bounds are
+    # the log start and log end offsets whatever the last stable offset is
+    cs = with_fault(with_fault(base, ("lso", "ta", 0, 2)), ("lso", "ta", 1, 0))
+    csi = C.add_state(cs)
+    C.add_job(csi, vsets[0], seek_grid(csi, cs, "ta", 0, 1, positions=[("fresh", None), ("cur2", 2)]) +
+              seek_grid(csi, cs, "ta", 1, 2, positions=[("cur-1", -1)], offs=(0, 1, 2)))
 
     # --- cluster states for the query APIs
     states = []
@@ -377,6 +415,15 @@ def enumerate_cases(tier, seed):
     # lookups by timestamp fail on one partition (e.g. UnsupportedForMessageFormat) while first/last succeed: one call that
     # asks for several timestamps of that partition gets the error AND the offsets that could be answered
     states.append(("c22-lerrt", with_fault(c22, ("lerrt", "ta", 0, 43))))
+    # open transactions at the tail: last stable offset below the high watermark on ta/0 (1 <= 2 < 4), ta/1 (0 <= 1 < 2) and
+    # tb/0 (2 <= 2 < 3); equal to it on tb/1 (empty log)
+    c22lso = with_fault(with_fault(with_fault(c22, ("lso", "ta", 0, 2)), ("lso", "ta", 1, 1)), ("lso", "tb", 0, 2))
+    states.append(("c22-lso", c22lso))
+    # a coordinator that refuses one group and serves the other
+    refused = [("c22-refused14", with_fault(c22, ("gerr", "g1", 14))), ("c22-refused16", with_fault(c22, ("gerr", "g2", 16)))]
+    if thorough:
+        refused += [("c22-refused15", with_fault(c22, ("gerr", "g2", 15))), ("c22-refused30", with_fault(with_fault(c22, ("gerr", "g1", 30)), ("gerr", "g2", 14)))]
+    states += refused
     nrand = 72 if thorough else 4
     for k in range(nrand):
         cs = random_cs(rng)
@@ -400,10 +447,11 @@ def enumerate_cases(tier, seed):
         ntp = len(all_tps(cs))
         if name.startswith("c22"):
             tsets = [(-2,), (-1,), (10,), (-2, -1), (-2, -1, 15), (10, 20), (-2, -1, 0, 10, 20, 25)]
-            qs += q_listoffsets_uniform(csi, cs, tsets if thorough or name in ("c22", "c22-lerr", "c22-lerrt") else tsets[3:5])
+            qs += q_listoffsets_uniform(csi, cs, tsets if thorough or name in ("c22", "c22-lerr", "c22-lerrt") else tsets[3:5],
+                                        isos=(0, 1) if name == "c22-lso" else (0,))
             qs += q_listoffsets_random(rng, csi, cs, 150 if thorough else (60 if name in ("c22", "c22-lerr", "c22-down") else 20))
             qs += q_offsetfetch(csi, cs)
-            qs += q_commit(rng, csi, cs, 60 if thorough else 25)
+            qs += q_commit(rng, csi, cs, 60 if thorough else 25, refused=0.2)
         elif name.endswith("blackhole"):
             # a dial to a black-holed leader lasts the whole dial time-out (15 s, generous so that load never
             # becomes an answer): few requests, exactly one entry on the unreachable leader, one cluster each
@@ -418,7 +466,7 @@ def enumerate_cases(tier, seed):
         else:
             qs += q_listoffsets_random(rng, csi, cs, 120 if thorough else 30)
             qs += q_offsetfetch(csi, cs, rng, 40 if thorough else 10)
-            qs += q_commit(rng, csi, cs, 30 if thorough else 8)
+            qs += q_commit(rng, csi, cs, 30 if thorough else 8, refused=0.25)
         C.add_job(csi, vs, qs)
         if thorough and name.startswith("c22") and name != "c22-merr":
             # every subset of {4 partitions} x {first, last, one time} in one request
@@ -428,12 +476,29 @@ def enumerate_cases(tier, seed):
             for j in range(2):
                 C.add_job(csi, vsets[(k + 3 + 5 * j) % len(vsets)],
                           q_metadata(csi, cs) + q_readpartitions(csi, cs) + q_listoffsets_random(rng, csi, cs, 25) +
-                          q_offsetfetch(csi, cs, rng, 8) + q_commit(rng, csi, cs, 8))
+                          q_offsetfetch(csi, cs, rng, 8) + q_commit(rng, csi, cs, 8, refused=0.25))
     # partition-level metadata errors through every metadata decoder of the Conn (v1 and v6+) and of the Client
     for name, cs in states:
         if any(p["merr"] for t in cs["topics"] for p in t["parts"]):
             for mv in (1, 6, MAXVERS["metadata"]):
                 C.add_job(csi_of[name], dict(MAXVERS, metadata=mv), q_readpartitions(csi_of[name], cs) + q_metadata(csi_of[name], cs))
+    # last stable offsets below the high watermark, asked with both isolation levels through the ListOffsets version that has no
+    # isolation level (1: the value is ignored), the first that has one (2) and the later ones
+    csi = csi_of["c22-lso"]
+    cs = C.states[csi - 1]
+    lso_tsets = [(-1,), (-2, -1), (-2, -1, 15), (10, 20), (-2, -1, 0, 10, 20, 25)]
+    for lv in ((1, 2, 3, 4, 5) if thorough else (1, 2, 5)):
+        C.add_job(csi, dict(MAXVERS, listoffsets=lv), q_listoffsets_uniform(csi, cs, lso_tsets, isos=(0, 1)) +
+                  q_listoffsets_random(rng, csi, cs, 80 if thorough else 30))
+        if thorough and lv in (2, 5):
+            C.add_job(csi, dict(MINVERS, listoffsets=lv), q_listoffsets_pairs_exhaustive(csi, cs, (-2, -1, 15), iso=1), chunk=400)
+    # a refused group through every OffsetFetch version (0/1: the code comes back on every partition, 2: the first version with a
+    # group-level error code, 3..5) and every OffsetCommit version (0..7)
+    for name, cs in refused:
+        csi = csi_of[name]
+        for i in range(8):
+            C.add_job(csi, dict(MAXVERS, offsetfetch=i % 6, offsetcommit=i),
+                      q_offsetfetch(csi, cs) + q_commit(rng, csi, cs, 16 if thorough else 8, refused=0.75))
     if not thorough:
         # a slice of the exhaustive (partition, timestamp) subsets on the 2x2 cluster, with and without a failing partition
         for name in ("c22", "c22-lerr"):
@@ -564,11 +629,56 @@ def check(ctx, rows, states, nshards, jobs_by_id, maxreport=12):
     return accepted, failing, distinct, generated
 
 
-def corrupt(row):
+def group_err(cs, g):
+    return next((x.get("gerr", 0) for x in cs["groups"] if x["id"] == g), 0)
+
+
+def guard_class(row, cs):
+    """the kind of case, for the vacuity guard: the API, and apart from the plain cases of an API those whose expected answer
+    hangs on the last stable offset or on a refusal of the coordinator"""
+    api, q = row["api"], row["q"]
+    if api == "listoffsets" and q.get("iso") == 1 and q.get("bv", 0) >= 2 and any(
+            r["ts"] == -1 and part_of(cs, r["t"], r["p"]) and part_of(cs, r["t"], r["p"])["lso"] < part_of(cs, r["t"], r["p"])["end"]
+            for r in q["reqs"]):
+        return "listoffsets:read_committed"
+    if api == "offsetfetch" and group_err(cs, q["group"]):
+        return "offsetfetch:refused"
+    if api == "commit" and q.get("gerr"):
+        return "commit:refused"
+    return api
+
+
+GUARD_CLASSES = {"seek", "readoffset", "readpartitions", "metadata", "listoffsets", "offsetfetch", "commit",
+                 "listoffsets:read_committed", "offsetfetch:refused", "commit:refused"}
+
+
+def corrupt(row, cs=None):
     """a copy of an accepted case with one field of the answer falsified (None when the case has no such field)"""
     r = json.loads(json.dumps(row))
     a, api = r["a"], r["api"]
-    if api == "seek" and a["steps"]:
+    cls = guard_class(row, cs) if cs else api
+    if cls == "listoffsets:read_committed":
+        # the answer of a client that lost the isolation level: the high watermark in the place of the last stable offset
+        hit = False
+        for p in a.get("parts", []):
+            part = part_of(cs, p["t"], p["p"])
+            if p["err"] == 0 and part and p["last"] == part["lso"] < part["end"]:
+                p["last"], hit = part["end"], True
+                break
+        if not hit:
+            return None
+    elif cls == "offsetfetch:refused":
+        # the refusal dropped: no group-level error, no partition error
+        if a["err"] != 0:
+            return None
+        a["gerr"] = 0
+        for p in a["parts"]:
+            p["err"] = 0
+    elif cls == "commit:refused":
+        if a["cerr"] != 0 or not a["cparts"]:
+            return None
+        a["cparts"][0]["err"] = 0
+    elif api == "seek" and a["steps"]:
         a["steps"][-1]["aoff"] += 1
     elif api == "readoffset" and a["err"] == 0:
         a["off"] += 1
@@ -596,11 +706,13 @@ def vacuity_guard(ctx, rows, states, failing_ids):
     bad = []
     per = {}
     for r in rows:
-        if r["id"] in failing_ids or per.get(r["api"], 0) >= 4:
+        cs = states[r["csi"] - 1]
+        cls = guard_class(r, cs)
+        if r["id"] in failing_ids or per.get(cls, 0) >= 4:
             continue
-        c = corrupt(r)
+        c = corrupt(r, cs)
         if c:
-            per[r["api"]] = per.get(r["api"], 0) + 1
+            per[cls] = per.get(cls, 0) + 1
             bad.append(c)
     _, rr = judge(ctx, bad, states, 1, mode="report")
     r = rr[0]
@@ -608,8 +720,9 @@ def vacuity_guard(ctx, rows, states, failing_ids):
         raise Inconclusive("vacuity guard run failed: " + (r["error"] or r["out"][-1500:]))
     rejected = {cid for cid, _ in mismatches(r["out"])}
     missed = [c["id"] for c in bad if c["id"] not in rejected]
-    if missed or (not failing_ids and len(per) < 7):
-        raise Inconclusive("vacuity guard: the judge accepted falsified answers %s (APIs covered: %s)" % (missed[:5], sorted(per)))
+    if missed or (not failing_ids and not GUARD_CLASSES <= set(per)):
+        raise Inconclusive("vacuity guard: the judge accepted falsified answers %s (kinds of cases covered: %s, wanted: %s)" %
+                           (missed[:5], sorted(per), sorted(GUARD_CLASSES)))
     return len(bad)
 
 
@@ -644,13 +757,34 @@ def run(ctx):
     versions = sorted({json.dumps(j["versions"], sort_keys=True) for j in C.jobs})
     faults = {"lerr": sum(1 for s in C.states if any(p["lerr"] for t in s["topics"] for p in t["parts"])),
               "merr": sum(1 for s in C.states if any(p["merr"] for t in s["topics"] for p in t["parts"])),
-              "down": sum(1 for s in C.states if s["down"])}
+              "down": sum(1 for s in C.states if s["down"]),
+              "lso_below_high_watermark": sum(1 for s in C.states if any(p["lso"] < p["end"] for t in s["topics"] for p in t["parts"])),
+              "refused_group": sum(1 for s in C.states if any(g["gerr"] for g in s["groups"]))}
+    cls_of = [guard_class(r, C.states[r["csi"] - 1]) for r in rows]
+
+    def by_version(cls, api):
+        out = {}
+        for r, c in zip(rows, cls_of):
+            if c == cls:
+                v = "v%s" % (r.get("v") or {}).get(api, "?")
+                out[v] = out.get(v, 0) + 1
+        return dict(sorted(out.items()))
     seen_versions = {}
     for r in rows:
         for api, v in (r.get("v") or {}).items():
             seen_versions.setdefault(api, set()).add(v)
+    # the two dimensions below must not silently drop out of the enumeration
+    need = {"offsetfetch:refused/OffsetFetch": {"v%d" % v for v in range(6)}, "commit:refused/OffsetCommit": {"v%d" % v for v in range(8)},
+            "listoffsets:read_committed/ListOffsets": {"v2", "v5"}}
+    for key, want in need.items():
+        cls, api = key.split("/")
+        if not failing and not want <= set(by_version(cls, api)):
+            raise Inconclusive("coverage lost: %s cases reached the brokers with %s versions %s, wanted %s" %
+                               (cls, api, sorted(by_version(cls, api)), sorted(want)))
     pick = lambda api: next((r for r in rows if r["api"] == api), None)
-    samples = [x for x in (pick("seek"), pick("listoffsets"), pick("commit"), rows[len(rows) // 2]) if x]
+    pick_cls = lambda cls: next((r for r, c in zip(rows, cls_of) if c == cls), None)
+    samples = [x for x in (pick("seek"), pick("listoffsets"), pick("commit"), rows[len(rows) // 2],
+                           pick_cls("listoffsets:read_committed"), pick_cls("offsetfetch:refused")) if x]
     return {"engine": ENGINE, "states": distinct, "transitions": generated,
             "traces_validated_against_impl": accepted, "cases": len(rows), "cases_rejected": len(failing),
             "cluster_states": len(C.states), "clusters_built": len(C.jobs), "states_with_fault": faults,
@@ -659,9 +793,22 @@ def run(ctx):
             "seek_steps": sum(len(r["q"]["steps"]) for r in seeks), "seek_whence_off_dc_combinations": len(whence_cov),
             "listoffsets_requests_entries_max": max([len(r["q"]["reqs"]) for r in lo] or [0]),
             "listoffsets_with_failing_partition": sum(1 for r in lo if any(p["err"] != 0 for p in r["a"].get("parts", []))),
+            "listoffsets_read_committed": sum(1 for r in lo if r["q"]["iso"] == 1),
+            "listoffsets_by_broker_max_version_and_isolation": {"v%d/iso%d" % (v, i): sum(1 for r in lo if r["q"]["bv"] == v and r["q"]["iso"] == i)
+                                                                for v in sorted({r["q"]["bv"] for r in lo}) for i in (0, 1)},
+            "listoffsets_read_committed_last_below_high_watermark_by_version": by_version("listoffsets:read_committed", "ListOffsets"),
+            # the same question where the brokers speak ListOffsets v1 at most: the isolation level must be ignored
+            "listoffsets_read_committed_last_below_high_watermark_brokers_v1": sum(
+                1 for r in lo if r["q"]["iso"] == 1 and r["q"]["bv"] < 2 and any(
+                    x["ts"] == -1 and part_of(C.states[r["csi"] - 1], x["t"], x["p"]) and
+                    part_of(C.states[r["csi"] - 1], x["t"], x["p"])["lso"] < part_of(C.states[r["csi"] - 1], x["t"], x["p"])["end"] for x in r["q"]["reqs"])),
+            "offsetfetch_of_refused_group_by_version": by_version("offsetfetch:refused", "OffsetFetch"),
+            "commit_to_refusing_coordinator_by_offsetcommit_version": by_version("commit:refused", "OffsetCommit"),
+            "commit_to_refusing_coordinator_by_offsetfetch_version": by_version("commit:refused", "OffsetFetch"),
+            "consumeroffsets_asked_of_refused_group": CO_ON_REFUSED_GROUP,
             "api_version_sets": [json.loads(v) for v in versions][:12], "api_version_sets_count": len(versions),
             "api_versions_received_by_brokers": {k: sorted(v) for k, v in sorted(seen_versions.items())},
-            "samples": [{"id": s["id"], "q": s["q"], "a": s["a"], "cs": C.states[s["csi"] - 1]} for s in samples[:4]]}
+            "samples": [{"id": s["id"], "q": s["q"], "a": s["a"], "cs": C.states[s["csi"] - 1]} for s in samples[:6]]}
 
 
 def replay(ctx, path):
